@@ -226,3 +226,34 @@ Proof.
   - exists data. cbn [fst snd app]. split; [reflexivity|]. split; reflexivity.
   - unfold fuel, b_fuel, src_fuel. cbn [fst snd s_data s_script length]. lia.
 Qed.
+
+(* ---- read_line to the end = the raw lines of the data, each with its length and stripped of
+   LF / CRLF *)
+Theorem run_read_lines_spec : forall data sc cap, 1 <= cap ->
+  exists st', run_read_lines cap (mkSource data sc)
+              = (map (fun l => (length l, strip_eol l)) (Layout.lines data), st').
+Proof.
+  intros data sc cap Hcap. unfold run_read_lines. cbn [s_data].
+  set (fuel := b_fuel ([], mkSource data sc) 0).
+  assert (Hgen : forall k st d m, rep_buf rep_src st d m -> length d < k -> m + length d + 1 < fuel ->
+            exists st', read_lines_all cap k fuel st
+                        = (map (fun l => (length l, strip_eol l)) (Layout.lines d), st')).
+  { induction k as [|k IH]; intros st d m HR Hk Hf; [lia|].
+    cbn [read_lines_all].
+    destruct (read_line_spec src_read rep_src src_simulates cap Hcap fuel st d m HR Hf)
+      as [st1 [m1 [E [HR1 Hm1]]]].
+    rewrite E. destruct d as [|x r].
+    - exists st1. reflexivity.
+    - rewrite (lines_cons (x :: r)) by discriminate. cbn [map].
+      pose proof (take_line_nonempty (x :: r) ltac:(discriminate)) as Hl1.
+      pose proof (take_line_length_le cap Hcap LF (x :: r)) as Hle.
+      set (l := take_line LF (x :: r)) in *.
+      destruct (IH st1 (skipn (length l) (x :: r)) m1 HR1) as [st2 E2].
+      { rewrite skipn_length. lia. }
+      { rewrite skipn_length. lia. }
+      rewrite E2. destruct (length l) as [|n0] eqn:En; [lia|]. exists st2. reflexivity. }
+  apply (Hgen _ ([], mkSource data sc) data (n_interrupted sc)).
+  - exists data. cbn [fst snd app]. split; [reflexivity|]. split; reflexivity.
+  - lia.
+  - unfold fuel, b_fuel, src_fuel. cbn [fst snd s_data s_script length]. lia.
+Qed.
